@@ -5,10 +5,13 @@ pub trait Suite {
 }
 
 pub mod codec;
+pub mod console;
+pub mod node;
 
 pub fn make(name: &str) -> Option<Box<dyn Suite>> {
     match name {
         "codec" => Some(Box::new(codec::Codec::new())),
+        "console" => Some(Box::new(console::Console::new())),
         _ => None,
     }
 }
